@@ -46,3 +46,5 @@ pub fn verif_iter_map_collect<F: Fn(&u64) -> u64>(s: &[u64], f: F) -> (v: Vec<u6
     requires forall|i: int| 0 <= i < s@.len() ==> f.requires((&s[i],)),
     ensures v@.len() == s@.len(), forall|i: int| 0 <= i < s@.len() ==> f.ensures((&s[i],), v@[i]),
 { s.iter().map(f).collect() }
+pub assume_specification<T, A: core::alloc::Allocator> [<Box<[T], A> as core::convert::AsRef<[T]>>::as_ref](b: &Box<[T], A>) -> (s: &[T])
+    ensures s@ == b@;
